@@ -78,6 +78,31 @@ def replay_tangent(model, dt=st.float64):
     return {"reproduced": bool(worst > tol), "input_v": vv.tolist(), "max_abs_err_row0_tangent": worst, "dRdv[:,0,:]": dRdv[0, :, 0, :].tolist()}
 
 
+def replay_jacobian(model, dt=st.float64):
+    """hand-coded dRdv and the reverse-mode Jacobian of rot, both against a central difference of the real function at the
+    model's vector (v free in R^3, as in clause O3(a))."""
+    import torch
+    from seqm.seqm_functions.two_elec_two_center_int import rotate_with_quaternion
+
+    tdt = torch.float64 if dt == st.float64 else torch.float32
+    v = torch.tensor([[model_float(model, k) for k in ("vx", "vy", "vz")]], dtype=tdt)
+    if float(v.norm()) == 0:
+        return {"reproduced": False, "reason": "degenerate model"}
+    rot, dRdv = rotate_with_quaternion(v, True)
+    auto = torch.autograd.functional.jacobian(lambda x: rotate_with_quaternion(x)[0], v)[:, :, 0, :]  # [i,j,k]
+    h = 1e-6 if dt == st.float64 else 1e-3
+    fd = torch.zeros(3, 3, 3, dtype=tdt)
+    for k in range(3):
+        e = torch.zeros_like(v)
+        e[0, k] = h
+        fd[:, :, k] = (rotate_with_quaternion(v + e)[0] - rotate_with_quaternion(v - e)[0]) / (2 * h)
+    hand = dRdv[0].permute(1, 2, 0)
+    tol = 1e-5 if dt == st.float64 else 2e-2
+    e_hand, e_auto = float((hand - fd).abs().max()), float((auto - fd).abs().max())
+    return {"reproduced": bool(e_hand > tol or e_auto > tol), "input_v": v[0].tolist(), "max|hand-coded dRdv - central difference|": e_hand,
+            "max|reverse-mode Jacobian - central difference|": e_auto, "tolerance": tol}
+
+
 def classify_branch(model, rep):
     vx = model_float(model, "vx")
     return "antipodal-branch" if abs(1.0 + vx) < 1e-3 else "generic-orientation"
@@ -160,7 +185,7 @@ def task_rotq_jacobian(ctx):
             ctx.error("%s.paths" % tag, "expected at least two branches, got %r" % sorted(brs))
         for p in ex.paths:
             for name, a, b in p.value["impl"]:
-                ctx.prove_eq(name, a, b, pc=p.pc)
+                ctx.prove_eq(name, a, b, pc=p.pc, replay=lambda m, dt=dt: replay_jacobian(m, dt), classify=classify_branch)
             for name, a, b in p.value["tan"]:
                 ctx.prove(name, a == b, pc=list(p.pc) + [unit, tangent], replay=lambda m, dt=dt: replay_tangent(m, dt), classify=classify_branch)
     ctx.assume_note("O3(a) treats v as a free vector of R^3 (the Jacobian the caller composes with the unit-vector projector)")
